@@ -215,6 +215,9 @@ def check(case, ctx) -> Result:
         sel = "sel1"
     for j in range(case["n_cons"]):
         stmts.append({"id": f"k{j}", "op": "node", "ins": [sel], "deep": True})
+    # a SIGNAL-typed consumer of the same port: it only wants to know THAT the current target ticked or was exchanged
+    if via != "if_":
+        stmts.append({"id": "ksig", "op": "node", "ins": [sel], "as_signal": True, "log_inputs": False})
     # a consumer of the reference itself: it must tick only when the selection really changes
     if via not in ("switch", "if_"):
         stmts.append({"id": "kref", "op": "node", "ins": ["sel0"], "as_ref": True, "valid": []})
@@ -327,6 +330,17 @@ def check(case, ctx) -> Result:
     if via not in ("switch", "if_") and ref_ticks != sel_changes:
         extra = [t for t in ref_ticks if t not in sel_changes]
         res.violations.append(Viol("reference_republished" if extra else "reference_not_published", f"the reference output ticked at {ref_ticks[:12]} but the selection changed at {sel_changes[:12]}", feats0))
+    if via != "if_":
+        sig = {d["t"] for d in tr.evals_of("ksig", "r")}
+        for t in range(start, end):
+            e = exp.get(t)
+            if e is not None and e["kind"] == "retarget_invalid":
+                continue
+            if (e is not None) != (t in sig):
+                res.violations.append(Viol("missing_evaluation" if e is not None else "unexpected_evaluation",
+                                           f"the SIGNAL-typed consumer of the reference was {'not ' if e is not None else ''}evaluated at t={t}; at that time: {(e or {}).get('kind', 'nothing happened to the current target')}",
+                                           dict(feats0, signal_consumer=True, kind=(e or {}).get("kind", "none"))))
+                break
     for j in range(case["n_cons"]):
         lbl = f"k{j}"
         got = {d["t"]: d["ins"][0] for d in tr.evals_of(lbl, "r")}
